@@ -28,8 +28,9 @@ impl LoadKind {
     }
 }
 
-#[derive(Clone, Copy, Debug, PartialEq, Eq, Serialize, Deserialize)]
+#[derive(Clone, Copy, Debug, PartialEq, Eq, Serialize, Deserialize, Default)]
 pub enum Wrap {
+    #[default]
     None,
     /// inside a style rule
     Rule,
@@ -39,6 +40,8 @@ pub enum Wrap {
     Mixin,
     /// inside `@each $q in 1 2 { … }`: the load executes twice (load-css only)
     Each,
+    /// inside `@media screen { … }`
+    Media,
 }
 
 #[derive(Clone, Debug, PartialEq, Serialize, Deserialize)]
@@ -51,13 +54,22 @@ pub enum Stmt {
         wrap: Wrap,
         /// namespace for `@use`
         ns: String,
+        /// configure the target: `with ($cfg<t>: 1)` / `$with: (cfg<t>: 1)`
+        #[serde(default)]
+        with_cfg: bool,
     },
     /// `m<i> { f: <i>; }`
     Marker,
     /// C03: `$id<i>: unique-id(); $v<i>: 0;` + marker printing the id
     ModuleVars,
-    /// C03: `<ns>.$v<t>: <value>;`
-    Assign { ns: String, target: usize, value: u32 },
+    /// C03: `<ns>.$v<t>: <value>;` (optionally inside `@if true {}` or a mixin that is included)
+    Assign {
+        ns: String,
+        target: usize,
+        value: u32,
+        #[serde(default)]
+        wrap: Wrap,
+    },
     /// C03: `u<j>-<k> { id: <ns>.$id<t>; v: <ns>.$v<t>; }`
     Probe { ns: String, target: usize, tag: u32 },
 }
@@ -98,17 +110,30 @@ impl GraphSpec {
         }
         for (k, s) in f.stmts.iter().enumerate() {
             match s {
-                Stmt::Load { kind: LoadKind::Use, url, ns, .. } => {
-                    head.push_str(&format!("@use \"{url}\" as {ns};\n"));
+                Stmt::Load { kind: LoadKind::Use, url, ns, with_cfg, target, .. } => {
+                    if *with_cfg {
+                        // (rsass does not parse `as <ns>` together with `with (...)`; that is a
+                        // parser limitation outside the claimed properties, so the default namespace is used)
+                        head.push_str(&format!("@use \"{url}\" with ($cfg{target}: 1);\n"));
+                    } else if ns == "*" {
+                        head.push_str(&format!("@use \"{url}\" as *;\n"));
+                    } else if ns.is_empty() {
+                        // default namespace: the last component of the url
+                        head.push_str(&format!("@use \"{url}\";\n"));
+                    } else {
+                        head.push_str(&format!("@use \"{url}\" as {ns};\n"));
+                    }
                 }
-                Stmt::Load { kind: LoadKind::Forward, url, .. } => {
-                    head.push_str(&format!("@forward \"{url}\";\n"));
+                Stmt::Load { kind: LoadKind::Forward, url, with_cfg, target, .. } => {
+                    let w = if *with_cfg { format!(" with ($cfg{target}: 1)") } else { String::new() };
+                    head.push_str(&format!("@forward \"{url}\"{w};\n"));
                 }
                 Stmt::Load { kind: LoadKind::Import, url, wrap, .. } => match wrap {
                     Wrap::Rule => body.push_str(&format!("w{i}x{k} {{ @import \"{url}\"; }}\n")),
+                    Wrap::Media => body.push_str(&format!("@media screen {{ @import \"{url}\"; }}\n")),
                     _ => {
                         let prev_is_plain_import = k > 0
-                            && matches!(&f.stmts[k - 1], Stmt::Load { kind: LoadKind::Import, wrap: w, .. } if *w != Wrap::Rule);
+                            && matches!(&f.stmts[k - 1], Stmt::Load { kind: LoadKind::Import, wrap: w, .. } if !matches!(*w, Wrap::Rule | Wrap::Media));
                         if self.merge_imports && prev_is_plain_import && body.ends_with("\";\n") {
                             body.truncate(body.len() - 2);
                             body.push_str(&format!(", \"{url}\";\n"));
@@ -117,8 +142,12 @@ impl GraphSpec {
                         }
                     }
                 },
-                Stmt::Load { kind: LoadKind::LoadCss, url, wrap, .. } => {
-                    let call = format!("@include meta.load-css(\"{url}\");");
+                Stmt::Load { kind: LoadKind::LoadCss, url, wrap, with_cfg, target, .. } => {
+                    let call = if *with_cfg {
+                        format!("@include meta.load-css(\"{url}\", $with: (cfg{target}: 1));")
+                    } else {
+                        format!("@include meta.load-css(\"{url}\");")
+                    };
                     match wrap {
                         Wrap::None => body.push_str(&format!("{call}\n")),
                         Wrap::Rule => body.push_str(&format!("w{i}x{k} {{ {call} }}\n")),
@@ -127,6 +156,7 @@ impl GraphSpec {
                             "@mixin w{i}x{k} {{ {call} }}\n@include w{i}x{k};\n"
                         )),
                         Wrap::Each => body.push_str(&format!("@each $q{i}x{k} in 1 2 {{ {call} }}\n")),
+                        Wrap::Media => body.push_str(&format!("@media screen {{ {call} }}\n")),
                     }
                 }
                 Stmt::Marker => body.push_str(&format!("m{i} {{ f: {i}; }}\n")),
@@ -135,17 +165,45 @@ impl GraphSpec {
                         "$id{i}: unique-id();\n$v{i}: 0;\nm{i} {{ id: $id{i}; }}\n"
                     ));
                 }
-                Stmt::Assign { ns, target, value } => {
-                    body.push_str(&format!("{ns}.$v{target}: {value};\n"));
+                Stmt::Assign { ns, target, value, wrap } => {
+                    let a = format!("{}$v{target}: {value};", self.ns_prefix(i, ns));
+                    match wrap {
+                        Wrap::If => body.push_str(&format!("@if true {{ {a} }}\n")),
+                        Wrap::Mixin => body.push_str(&format!("@mixin a{i}x{k} {{ {a} }}\n@include a{i}x{k};\n")),
+                        _ => body.push_str(&format!("{a}\n")),
+                    }
                 }
                 Stmt::Probe { ns, target, tag } => {
+                    let px = self.ns_prefix(i, ns);
                     body.push_str(&format!(
-                        "u{i}-{tag}-t{target} {{ id: {ns}.$id{target}; v: {ns}.$v{target}; }}\n"
+                        "u{i}-{tag}-t{target} {{ id: {px}$id{target}; v: {px}$v{target}; }}\n"
                     ));
                 }
             }
         }
-        head + &body
+        // a configurable variable, so that loads may configure this file
+        let cfg = if f.path.ends_with(".css") { String::new() } else { format!("$cfg{i}: 0 !default;\n") };
+        head + &cfg + &body
+    }
+
+    /// How members are written through the `@use` of file `i` whose `ns` field is `ns`:
+    /// `n3.` for a named namespace, nothing for `as *`, `<last url component>.` for the default one.
+    pub fn ns_prefix(&self, i: usize, ns: &str) -> String {
+        if ns == "*" {
+            return String::new();
+        }
+        if ns.is_empty() {
+            let url = self.files[i]
+                .stmts
+                .iter()
+                .find_map(|s| match s {
+                    Stmt::Load { kind: LoadKind::Use, ns: n, url, .. } if n.is_empty() => Some(url.as_str()),
+                    _ => None,
+                })
+                .unwrap_or("");
+            return format!("{}.", url.rsplit('/').next().unwrap_or(""));
+        }
+        format!("{ns}.")
     }
 
     pub fn build_fs(&self) -> SimFs {
@@ -386,6 +444,13 @@ pub fn graph_shrinks(g: &GraphSpec) -> Vec<GraphSpec> {
                     let mut n = g.clone();
                     if let Stmt::Load { wrap, .. } = &mut n.files[i].stmts[k] {
                         *wrap = Wrap::None;
+                    }
+                    out.push(n);
+                }
+                if matches!(&g.files[i].stmts[k], Stmt::Load { with_cfg: true, .. }) {
+                    let mut n = g.clone();
+                    if let Stmt::Load { with_cfg, .. } = &mut n.files[i].stmts[k] {
+                        *with_cfg = false;
                     }
                     out.push(n);
                 }
